@@ -29,6 +29,19 @@ fn f(x: f64) -> Value {
 }
 
 fn num(rng: &mut Rng) -> Value {
+    // occasionally: signed zeros (tie in every ordering, distinguishable in the output) and
+    // magnitudes whose sums leave the doubles (passed through the document, like close numbers)
+    if rng.chance(1, 12) {
+        return match rng.below(8) {
+            0 | 1 => f(-0.0),
+            2 => f(0.0),
+            3 => json!(0),
+            k => {
+                CLOSE_USED.with(|c| c.set(true));
+                f([1e308, 9e307, -1e308, 1.7e308][k - 4])
+            }
+        };
+    }
     match rng.below(10) {
         0 => json!(0),
         1 => f(-0.5),
